@@ -43,6 +43,19 @@ impl KeyCampaign {
     // alphabets, histories up to 120 events, up to 6 keys held): rare multi-condition interactions
     // are far denser there
     let thorough = thorough || rng.chance(1, 2);
+    // one random-layout case in ten is written with the alias shorthand (plus repeat-only entries on
+    // the alias): the tree under test loads the text, the oracles judge against what it means
+    if self.source == Source::Random && self.absorbing != Some(true) && crate::rng::mix(seed, 0xa11a5) % 10 == 0 {
+      let mut r2 = Rng::new(crate::rng::mix(seed, 0xa11a6));
+      let o = LayoutOpts { weird: false, related: false, dense: false, absorbing: false, norepeat: self.force_norepeat || r2.chance(1, 2), special: self.force_special || r2.chance(1, 2), max_map: 4, big: thorough && r2.chance(1, 2), edge_times: false };
+      if let Some((meaning, text)) = gen_alias_written(&mut r2, &o) {
+        if through_loader(&meaning).map(|l| l.mappings == meaning.mappings).unwrap_or(false) {
+          let ho = swarm_hist(&mut r2, thorough, self.faults, self.resets, false);
+          let ops = gen_ops(&mut r2, &meaning, &ho, st);
+          return CaseA { layout: meaning, layout_name: "alias-written".to_string(), dist: false, ops, written: Some(text) };
+        }
+      }
+    }
     let (layout, name, dist) = match self.source {
       Source::Shipped => {
         let mut pool: Vec<&NamedLayout> = self.shipped.iter().collect();
